@@ -20,6 +20,7 @@ package main
 // and the plain step  tipstored=anchor+N : like tip=anchor+N but relative to the STORED record (usable after a crash)
 
 import (
+	"errors"
 	"fmt"
 	"hash/fnv"
 	"os"
@@ -27,6 +28,8 @@ import (
 	"strconv"
 	"strings"
 	"sync"
+
+	"github.com/elementsproject/peerswap/swap"
 )
 
 type stepMods struct {
@@ -107,6 +110,18 @@ func init() {
 					sc.env.CurHeight = uint32(int64(m.Data.StartingBlockHeight) + off)
 				}
 			}
+			return true
+		}
+		if name == "tx_confirmed_err" {
+			// the watcher reports an error (payment window closed): OnTxConfirmed(id, hex, err)
+			hexs := "0200" + randHex(sc.r, 16)
+			sc.doStep(stepSpec{kind: "tx_confirmed(err=true)", plan: sc.randomPlan(),
+				input: func(post *swap.SwapStateMachine) string {
+					return fmt.Sprintf("InTxConfirmed %s true", CoqStr(hexs))
+				},
+				call: func() error {
+					return sc.node.svc.OnTxConfirmed(sc.ident(), hexs, errors.New("watcher: payment window closed"))
+				}})
 			return true
 		}
 		m, base, ok := parseMods(name)
@@ -273,6 +288,9 @@ func crashObserver(sc *Scen, rec *stepRecord) string {
 	for _, e := range rec.Effects {
 		if strings.HasPrefix(e, "ESend ") && strings.Contains(e, "(MCoop ") {
 			rec.JS["coop_sent"] = true
+		}
+		if strings.HasPrefix(e, "EPersist ") && strings.HasSuffix(e, " false") {
+			rec.JS["store_failed"] = true
 		}
 	}
 	return fmt.Sprintf("(mkCObs %s %s)", crash, CoqList(pend))
